@@ -198,7 +198,8 @@ func (c *channel) Close(err error) {
 		// wait async send finished.
 		if nil != c.writeQueue {
 			var maxWaitNum int
-			for (c.untilWrite || maxWaitNum < 10) && atomic.LoadInt32(&c.running) != idle {
+			// look at the queue before the flag: the sender releases the flag before its last look at the queue.
+			for (c.untilWrite || maxWaitNum < 10) && (len(c.writeQueue) > 0 || atomic.LoadInt32(&c.running) != idle) {
 				maxWaitNum++
 				time.Sleep(time.Millisecond * 100)
 			}
